@@ -189,7 +189,56 @@ static void check_fourier_grid(TasmanianSparseGrid const &g, CaseCtx &c){
     }
 }
 
+
+// Deep one-dimensional levels of the closed-form Chebyshev-type rules (clenshaw-curtis, clenshaw-curtis-zero, fejer2).  A grid that contains 1-d level
+// 15 has >= 32768 nodes per direction and its wrapper evaluates the O(n) weight formula for every node (90 s), so generated grids never get there;
+// the formula itself costs O(n) per node.  The probe asks the library's own per-node functions (the ones OneDimensionalWrapper calls) for a sample of
+// nodes of levels 12..16 and compares with the closed forms evaluated here in long double: Fejer type 2 in its sine form
+// w_k = 4 sin(t_k)/(n+1) sum_{m=1}^{(n+1)/2} sin((2m-1) t_k)/(2m-1), t_k = k pi/(n+1); Clenshaw-Curtis w_k = (c_k/N)(1 - sum'' b_j cos(2 j t_k)/(4j^2-1)).
+// Added after the int overflow of 4*j*j - 1 (fejer2 level 15: weights summing to 1.9999999975) was met by C13's serial reference under UBSan.
+static void check_deep_chebyshev_formulas(CaseCtx &c, Rng &rng){
+    static const TypeOneDRule rules[] = {rule_fejer2, rule_clenshawcurtis, rule_clenshawcurtis0};
+    TypeOneDRule rule = rules[rng.range(0, 2)];
+    // levels reach the first ones whose formulas leave the int range when evaluated carelessly: 4*j*j - 1 (fejer2 level 15, clenshaw-curtis 16,
+    // zero-boundary 15) and node number times n - 1 before the division (clenshaw-curtis 16, zero-boundary 15)
+    int level = (rule == rule_fejer2) ? rng.range(12, 16) : (rule == rule_clenshawcurtis) ? rng.range(12, 16) : rng.range(11, 15);
+    emit_begin(c, J().str("kind", "deep-1d-weight-formula").str("rule", IO::getRuleString(rule)).i("level", level).obj());
+    const long double pi = 3.141592653589793238462643383279502884L;
+    std::vector<double> nodes = (rule == rule_fejer2) ? OneDimensionalNodes::getFejer2Nodes(level)
+                              : (rule == rule_clenshawcurtis) ? OneDimensionalNodes::getClenshawCurtisNodes(level) : OneDimensionalNodes::getClenshawCurtisNodesZero(level);
+    int np = (int) nodes.size();
+    if (np != OneDimensionalMeta::getNumPoints(level, rule)){ c.viol("quadrature:deep-1d:node-count", J().i("nodes", np).obj()); return; }
+    for(int s=0; s<10 && c.nviol == 0; s++){
+        int point = (s == 0) ? 0 : (s == 1) ? np - 1 : (s == 2) ? np / 2 : rng.range(0, np - 1);
+        double x = nodes[(size_t) point];
+        double w = (rule == rule_fejer2) ? OneDimensionalNodes::getFejer2Weight(level, point)
+                 : (rule == rule_clenshawcurtis) ? OneDimensionalNodes::getClenshawCurtisWeight(level, point) : OneDimensionalNodes::getClenshawCurtisWeightZero(level, point);
+        long double ref, scale;
+        if (rule == rule_fejer2){
+            long long n = np; // interior Chebyshev nodes cos(k pi / (n+1)), k = 1..n
+            long long k = std::llround(std::acos((long double) x) * (long double) (n + 1) / pi);
+            if (k < 1 || k > n || std::fabs((double) (std::cos(pi * (long double) k / (long double) (n + 1)) - (long double) x)) > 1e-12){ c.viol("quadrature:deep-1d:node-not-a-fejer2-node", J().i("point", point).num("x", x).obj()); return; }
+            long double t = pi * (long double) k / (long double) (n + 1), sum = 0.0L;
+            for(long long m=(n+1)/2; m>=1; m--) sum += std::sin((long double) (2*m-1) * t) / (long double) (2*m-1);
+            ref = 4.0L * std::sin(t) * sum / (long double) (n + 1); scale = 2.0L / (long double) (n + 1);
+        }else{
+            long long N = (rule == rule_clenshawcurtis) ? np - 1 : np + 1; // intervals; zero-boundary rule = interior nodes of the next level
+            long long k = std::llround(std::acos((long double) x) * (long double) N / pi);
+            if (k < 0 || k > N || std::fabs((double) (std::cos(pi * (long double) k / (long double) N) - (long double) x)) > 1e-12){ c.viol("quadrature:deep-1d:node-not-a-clenshaw-curtis-node", J().i("point", point).num("x", x).obj()); return; }
+            long double t = pi * (long double) k / (long double) N, sum = 0.0L;
+            for(long long j=N/2; j>=1; j--) sum += ((2*j == N) ? 1.0L : 2.0L) * std::cos(2.0L * (long double) j * t) / (4.0L * (long double) j * (long double) j - 1.0L);
+            ref = ((k == 0 || k == N) ? 1.0L : 2.0L) * (1.0L - sum) / (long double) N; scale = 2.0L / (long double) N;
+        }
+        c.count("deep_1d_weights_compared");
+        if (!(std::fabs((double) ((long double) w - ref)) <= 1e-10 * (double) scale)){
+            c.viol(std::string("quadrature:deep-1d-weight-formula:") + IO::getRuleString(rule), J().i("level", level).i("point", point).num("x", x).num("weight", w).num("closed_form", (double) ref).obj());
+            return; }
+    }
+    c.sig(std::string("deep1d|") + IO::getRuleString(rule) + "|" + std::to_string(level));
+}
+
 void mon_c02(CaseCtx &c, Rng &rng){
+    if (c.index % 50 == 37){ check_deep_chebyshev_formulas(c, rng); return; }
     GenOpts go; go.families = (1u << fam_global) | (1u << fam_sequence) | (1u << fam_fourier); go.max_points = c.thorough ? 1500 : 600;
     go.max_dims = c.thorough ? 4 : 3; go.min_outs = rng.coin(0.7) ? 1 : 0; go.max_outs = 1; go.custom = true; go.conformal = false; go.max_depth = 12;
     Cfg cfg = gen_cfg(rng, go);
